@@ -3,6 +3,7 @@ package rules
 import (
 	"fmt"
 	"strings"
+	"sync"
 
 	"golang.org/x/tools/go/ssa"
 
@@ -11,7 +12,7 @@ import (
 
 func init() {
 	register(&Property{
-		ID: "C01",
+		ID:      "C01",
 		Explain: "FOLD with byte lanes. (1) ws.HeaderSize, ws.WriteHeader: evaluated over Fin x Rsv(0..7) x OpCode(0..15) x Masked x Length cells (cells split at every constant the code compares Length with); the bytes handed to the single w.Write are compared lane by lane with the RFC 6455 5.2 layout (byte0 = Fin<<7|Rsv<<4|OpCode, byte1 = Masked<<7|len7, big-endian extended length, then the 4 mask lanes), the count must equal HeaderSize and be minimal. (2) ws.ReadHeader and wsutil.(*Reader).readHeader: evaluated for all 65536 values of the first two bytes with the following bytes as named input lanes; the number and size of io.ReadFull calls, every decoded field, the MSB refusal and the propagation of a failed read are compared with the same reference, so the two decoders agree with the RFC and with each other and consume exactly the header. (3) ReadFrame / WriteFrame / CompileFrame are header codec + exactly Length payload bytes (effect sequence). Encoder and decoder are checked against one reference layout, hence are mutual inverses on every minimally encoded header.",
 		Trusted: []string{"go/ssa + go/types", "encoding/binary.BigEndian is big-endian (modelled as lane intrinsics)", "io.ReadFull fills the whole slice or fails", "the checker's abstract evaluator"},
 		Assume:  []string{"Rsv <= 7, OpCode <= 15, 0 <= Length <= 2^63-1 (the property's domain)"},
@@ -215,70 +216,100 @@ func c01Decoder(c *Ctx, rule string, f *ssa.Function, method bool) {
 	}
 	key := rule + "/" + f.Name()
 	msbErr := c.globalErrName(rule, ws, "ErrHeaderLengthMSB")
-	m := c.machine()
-	addBinaryModels(m)
-	var recvType = func() fold.Val { return nil }
-	if method {
-		rt := c.P.NamedType(wsutil, "Reader")
-		if rt == nil {
-			c.R.Unknown(rule, key+"/anchor", "-", "wsutil.Reader does not resolve")
-			return
-		}
-		recvType = func() fold.Val {
-			o := m.NewObj("reader", fold.SymOfType("r", rt))
-			return fold.Ref{O: o}
-		}
+	if method && c.P.NamedType(wsutil, "Reader") == nil {
+		c.R.Unknown(rule, key+"/anchor", "-", "wsutil.Reader does not resolve")
+		return
 	}
-	m.Models["io.ReadFull"] = func(cl *fold.Call) fold.Val {
-		mm := cl.M
-		buf, ok := cl.Args[1].(fold.SliceV)
-		if !ok {
-			mm.Emit(fold.Effect{Kind: "call", Name: "ReadFull", Args: cl.Args, Note: "opaque-buffer"})
-			return fold.Tuple{fold.K(0), fold.Sym{Name: "bad", NonNil: true}}
-		}
-		mm.Emit(fold.Effect{Kind: "call", Name: "ReadFull", Args: []fold.Val{cl.Args[0], fold.K(buf.Len)}})
-		e := errChoice(mm, fmt.Sprintf("read%d.err", cl.Seq), "global:io.EOF", fmt.Sprintf("read%d-error", cl.Seq))
-		if _, isNil := e.(fold.Nil); !isNil {
-			return fold.Tuple{fold.Int{Lo: 0, Hi: buf.Len}, e}
-		}
-		if cl.Seq == 1 {
-			if buf.Len >= 1 {
-				mm.SetElem(buf, 0, fold.K(int64(mm.Choose("b0", 256))))
+	type pp struct {
+		*fold.Path
+		b0 int
+	}
+	partPaths := make([][]*fold.Path, 16)
+	var wg sync.WaitGroup
+	for part := 0; part < 16; part++ {
+		part := part
+		wg.Add(1)
+		go func() {
+			defer wg.Done()
+			m := c.machine()
+			addBinaryModels(m)
+			var recvType = func() fold.Val { return nil }
+			if method {
+				rt := c.P.NamedType(wsutil, "Reader")
+				if rt == nil {
+					c.R.Unknown(rule, key+"/anchor", "-", "wsutil.Reader does not resolve")
+					return
+				}
+				recvType = func() fold.Val {
+					o := m.NewObj("reader", fold.SymOfType("r", rt))
+					return fold.Ref{O: o}
+				}
 			}
-			if buf.Len >= 2 {
-				mm.SetElem(buf, 1, fold.K(int64(mm.Choose("b1", 256))))
-			}
-			for i := int64(2); i < buf.Len; i++ {
-				mm.SetElem(buf, i, fold.Int{Lo: 0, Hi: 255, Name: fmt.Sprintf("y%d", i)})
-			}
-		} else {
-			for i := int64(0); i < buf.Len; i++ {
-				lane := fold.Int{Lo: 0, Hi: 255, Name: fmt.Sprintf("x%d", i)}
-				if i == 0 && cl.Seq == 2 {
-					if mm.Choose("x0.msb", 2) == 1 {
-						lane.Lo = 128
-					} else {
-						lane.Hi = 127
+			m.Models["io.ReadFull"] = func(cl *fold.Call) fold.Val {
+				mm := cl.M
+				buf, ok := cl.Args[1].(fold.SliceV)
+				if !ok {
+					mm.Emit(fold.Effect{Kind: "call", Name: "ReadFull", Args: cl.Args, Note: "opaque-buffer"})
+					return fold.Tuple{fold.K(0), fold.Sym{Name: "bad", NonNil: true}}
+				}
+				mm.Emit(fold.Effect{Kind: "call", Name: "ReadFull", Args: []fold.Val{cl.Args[0], fold.K(buf.Len)}})
+				e := errChoice(mm, fmt.Sprintf("read%d.err", cl.Seq), "global:io.EOF", fmt.Sprintf("read%d-error", cl.Seq))
+				if _, isNil := e.(fold.Nil); !isNil {
+					return fold.Tuple{fold.Int{Lo: 0, Hi: buf.Len}, e}
+				}
+				if cl.Seq == 1 {
+					if buf.Len >= 1 {
+						mm.SetElem(buf, 0, fold.K(int64(part*16+mm.Choose("b0lo", 16))))
+					}
+					if buf.Len >= 2 {
+						mm.SetElem(buf, 1, fold.K(int64(mm.Choose("b1", 256))))
+					}
+					for i := int64(2); i < buf.Len; i++ {
+						mm.SetElem(buf, i, fold.Int{Lo: 0, Hi: 255, Name: fmt.Sprintf("y%d", i)})
+					}
+				} else {
+					for i := int64(0); i < buf.Len; i++ {
+						lane := fold.Int{Lo: 0, Hi: 255, Name: fmt.Sprintf("x%d", i)}
+						if i == 0 && cl.Seq == 2 {
+							if mm.Choose("x0.msb", 2) == 1 {
+								lane.Lo = 128
+							} else {
+								lane.Hi = 127
+							}
+						}
+						mm.SetElem(buf, i, lane)
 					}
 				}
-				mm.SetElem(buf, i, lane)
+				return fold.Tuple{fold.K(buf.Len), fold.Nil{}}
 			}
-		}
-		return fold.Tuple{fold.K(buf.Len), fold.Nil{}}
+			paths := m.Explore(f, func(mm *fold.Machine) []fold.Val {
+				if method {
+					return []fold.Val{recvType(), fold.Sym{Name: "in", NonNil: true}}
+				}
+				return []fold.Val{fold.Sym{Name: "in", NonNil: true}}
+			}, nil)
+
+			partPaths[part] = paths
+		}()
 	}
-	paths := m.Explore(f, func(mm *fold.Machine) []fold.Val {
-		if method {
-			return []fold.Val{recvType(), fold.Sym{Name: "in", NonNil: true}}
+	wg.Wait()
+	var paths []pp
+	for part, ps := range partPaths {
+		for _, p := range ps {
+			b0 := -1
+			if k := p.Chose("b0lo"); k >= 0 {
+				b0 = part*16 + k
+			}
+			paths = append(paths, pp{Path: p, b0: b0})
 		}
-		return []fold.Val{fold.Sym{Name: "in", NonNil: true}}
-	}, nil)
+	}
 	c.R.AddCells(len(paths))
 	c.R.Paths += len(paths)
 	var problems []string
 	checked := 0
 	for _, p := range paths {
 		if p.Abort != "" || p.Panic {
-			problems = append(problems, "undecided: "+p.Abort+panicNote(p))
+			problems = append(problems, "undecided: "+p.Abort+panicNote(p.Path))
 			continue
 		}
 		ret, _ := p.Ret.(fold.Tuple)
@@ -289,7 +320,7 @@ func c01Decoder(c *Ctx, rule string, f *ssa.Function, method bool) {
 		reads := p.Calls("ReadFull")
 		gotErr := c.errName(ret[1])
 		e1 := p.Chose("read1.err")
-		desc := fmt.Sprintf("b0=%#02x b1=%#02x", p.Chose("b0"), p.Chose("b1"))
+		desc := fmt.Sprintf("b0=%#02x b1=%#02x", p.b0, p.Chose("b1"))
 		if len(reads) < 1 || fold.Show(reads[0].Args[0]) != "in" || fold.Show(reads[0].Args[1]) != "2" {
 			problems = append(problems, desc+": first read is not io.ReadFull(in, 2 bytes)")
 			continue
@@ -301,7 +332,7 @@ func c01Decoder(c *Ctx, rule string, f *ssa.Function, method bool) {
 			}
 			continue
 		}
-		b0, b1 := int64(p.Chose("b0")), int64(p.Chose("b1"))
+		b0, b1 := int64(p.b0), int64(p.Chose("b1"))
 		checked++
 		masked := b1&0x80 != 0
 		l7 := b1 & 0x7f
